@@ -283,6 +283,11 @@ func vPeer(ch interface{})                       {}
 func vGuarded(obj, mu interface{}, name string)  {}
 func vHeld(mu interface{}) bool                  { return true }
 
+// vReadOnly declares shared state that has no lock because it is only written
+// before the associations start: under the engine any later write is a
+// lock-discipline violation (confirmed natively by the racer under -race).
+func vReadOnly(obj interface{}, name string) {}
+
 // ---------------------------------------------------------------------------
 // Replay driver (called from the generated test).
 
